@@ -201,6 +201,21 @@ pub fn template(mut i: u64) -> Vec<Stmt> {
     prog
 }
 
+pub fn c11_directed() -> Vec<(&'static str, &'static str)> {
+    vec![
+        ("stop-in-own-condition-toplevel", "stel i = 0; stel r = [1, zolang als i > 2 { stop } anders { ja } { i += 1; i }, 3]; r[0]"),
+        ("volgende-in-own-condition-toplevel", "stel i = 0; zolang als i > 2 { nee } anders { i += 1; volgende } { 1 }; i"),
+        ("stop-in-inner-condition-leaves-outer", "stel i = 0; stel n = 0; zolang i < 5 { i += 1; zolang als i > 2 { stop } anders { nee } { 1 }; n += 1 }; [i, n]"),
+        ("volgende-in-inner-condition-continues-outer", "stel i = 0; stel n = 0; zolang i < 5 { i += 1; zolang als i % 2 == 0 { volgende } anders { nee } { 1 }; n += 1 }; [i, n]"),
+        ("stop-in-inner-condition-in-function", "functie f() { stel i = 0; stel n = 0; zolang i < 5 { i += 1; stel w = [7, zolang als i > 2 { stop } anders { nee } { 1 }]; n += 1 }; [i, n] } f()"),
+        ("nested-loops-stop-each", "stel uit = []; stel i = 0; zolang i < 3 { i += 1; stel j = 0; zolang ja { j += 1; als j > i { stop } }; als i == 2 { stop } }; [i]"),
+        ("nested-loops-volgende-inner", "stel geteld = 0; stel r = 0; zolang r < 3 { r += 1; stel k = 0; zolang k < 3 { k += 1; als k == 2 { volgende }; geteld += 1 } }; [geteld, r]"),
+        ("three-arm-chain-each-arm", "functie kies(x) { als x == 1 { \"een\" } anders als x == 2 { \"twee\" } anders als x == 3 { \"drie\" } anders { \"veel\" } }; [kies(1), kies(2), kies(3), kies(4)]"),
+        ("loop-zero-times-value", "stel r = zolang nee { 5 }; [r]"),
+        ("if-in-value-position-inside-loop", "stel i = 0; stel som = 0; zolang i < 4 { i += 1; som += als i % 2 == 0 { 10 } anders als i == 3 { 100 } anders { 1 } }; som"),
+    ]
+}
+
 const RESIDUE_BODIES: [&str; 26] = [
     "lijst[0] = als i % 2 == 0 { volgende } anders { 7 }",
     "lijst[als i % 2 == 0 { volgende } anders { 0 }] = 5",
@@ -314,6 +329,7 @@ impl Flow {
         };
         match self.which {
             Which::C11 => Families::new(vec![
+                ("directed", c11_directed().len() as u64),
                 ("templates", tmpl),
                 ("residue", (RESIDUE_BODIES.len() * 2) as u64),
                 ("control-random", rnd),
@@ -327,13 +343,14 @@ impl Flow {
         let mut r = Rng::for_case(ctx.seed, 1100 + f as u64 + if self.which == Which::C12 { 40 } else { 0 }, i);
         match name {
             "templates" => {
-                let fam_n = self.fams(ctx).fams[0].1;
+                let fam_n = self.fams(ctx).fams[1].1;
                 let stride = TEMPLATE_SPACE / fam_n;
                 let k = (i * stride + ctx.seed % stride.max(1)) % TEMPLATE_SPACE;
                 (name, to_text(&template(k)))
             }
             "residue" => (name, residue_program(RESIDUE_BODIES[(i / 2) as usize], 3, i % 2 == 1)),
             "control-random" => (name, to_text(&random_program(&mut r, Profile::Control).0)),
+            "directed" if self.which == Which::C11 => (name, c11_directed()[i as usize].1.to_string()),
             "directed" => (name, c12_directed()[i as usize].1.clone()),
             "limits" => (name, limit_cases()[i as usize].1.clone()),
             _ => (name, to_text(&random_program(&mut r, Profile::Calls).0)),
